@@ -34,6 +34,8 @@ CLAIMED = {
          "one request through the real ServeHTTP / scraper / tee / status code"),
  "C14": ("5/C14", "bounded: StatisticSeries over <=3 (4) rows, window arithmetic in exact floating-point theory for values < 2^20 (2^32), runtimeInfo sums over <=2 (3) targets, composition through ServeHTTP on the fixed payload; relabel.Process is a keep/drop contract model",
          "accounting kernels + composition"),
+ "C15": ("5/C15", "IN PART: the hash term is a function of the final label sequence and URL only (two discoveries differing in label placement, meta labels and iteration order give equal hashes and equal shipped labels), equal entries collapse; xxhash / FNV are uninterpreted functions, so collision-freeness ('different labels, different hashes') and cross-process stability are outside",
+         "function-of-final-labels, order independence, dedupe"),
  "C17": ("5/C17", "SEQUENTIAL HISTORIES ONLY: first round + one step (update or reload) over 2 jobs with <=1 target per group; interleavings of readers and writers are not explored (no thread model) - in their place a structural lemma is decided: a reload / an update reads and replaces the target sets inside ONE critical section (lock acquisitions counted by the executor; such a counterexample is confirmed by concrete re-execution of the SSA, not natively); targetsFromGroup is summarised",
          "sequential snapshot / tracking semantics + single-critical-section lemma"),
  "C18": ("5/C18", "bounded: replica counts in [0,6], <=2 claim templates, <=3 pods in every order; client-go replaced by recording fakes",
@@ -48,7 +50,6 @@ NOT_APPLICABLE = {
  "C02": "Equivalence is against the vendored Prometheus library on arbitrary relabel programs and label shapes; the code path is YAML marshalling/loading, Go regexp, net/url and ~10^5 lines of string processing - no bounded SSA->SMT encoding of it is within reach, and stubbing those libraries would assume the property.",
  "C11": "The substance is yaml.Marshal/config.Load round-tripping of the Prometheus config types and textual <secret> replacement in the marshalled text; deciding it needs the YAML encoder/decoder and reflection over config structs, which cannot be encoded.",
  "C16": "The hash is hashstructure.Hash - a reflect walk over the parsed config after config.Load; reflection and YAML parsing are outside what the encoder can execute symbolically.",
- "C15": "The hash is xxhash (labels.Labels.Hash) and FNV over formatted label bytes and a net/url string built by the Prometheus scrape.Target; with those as uninterpreted functions the check would only restate that the code calls them on the final labels, and collision-freeness ('different labels get different hashes') is not a bounded solver query; not attempted in favour of deeper checks elsewhere.",
 }
 
 def main():
